@@ -107,6 +107,50 @@ impl RecursorError {
 //%end
 }
 
+// ---- RecursorDnsHandle::ns_pool_for_name, one step of the walk from the TLD down to the query name (statement range of an
+//      async fn): C19 "resolution ... ends ... after a number of upstream queries bounded by the configured recursion limits".
+//      The walk recurses through append_ips_from_lookup for glueless delegations; what bounds it is that EVERY NS lookup of a
+//      zone without a live cached pool -- whether the response cache answers it or an upstream query does -- is counted
+//      against ns_recursion_limit before it is made. ----
+pub struct NsQuery { pub vp: u64 }
+#[derive(Clone, Copy)] pub struct VpRecordType(pub u16);
+impl VpRecordType { pub const NS: VpRecordType = VpRecordType(2); }
+impl NsQuery { pub fn new(name: Name, t: VpRecordType) -> (r: NsQuery) { NsQuery { vp: name.vp_id } } }
+impl Name {
+    #[verifier::external_body] pub fn base_name(&self) -> (r: Name) { unimplemented!() }
+    pub fn clone(&self) -> (r: Name) ensures r == *self { *self }
+}
+pub struct NsNetError { pub vp: u64 }
+impl NsNetError { #[verifier::external_body] pub fn into(self) -> (r: RecursorError) { unimplemented!() } }
+pub struct NsResponse { pub vp: u64 }
+pub struct NsPool { pub vp: u64 }
+impl NsPool { #[verifier::external_body] pub fn clone(&self) -> (r: NsPool) { unimplemented!() } }
+pub struct NsRespCache { pub vp: u64 }
+impl NsRespCache {
+    #[verifier::external_body] pub fn get(&self, q: &NsQuery, now: u64) -> (r: Option<Result<NsResponse, NsNetError>>) { unimplemented!() }
+}
+pub struct NsHandle { pub ns_recursion_limit: u8, pub response_cache: NsRespCache }
+impl NsHandle {
+    // RecursorDnsHandle::lookup (async): one upstream exchange
+    #[verifier::external_body]
+    pub fn lookup(&self, q: NsQuery, zone: Name, pool: NsPool, now: u64) -> (r: Result<NsResponse, RecursorError>) { unimplemented!() }
+    fn ns_pool_step(&self, zone: Name, depth_in: u8, nameserver_pool: NsPool, request_time: u64) -> (r: Result<(u8, Result<NsResponse, RecursorError>), RecursorError>)
+        requires depth_in < 255      // the caller's depth passed the same check one level up (depth < limit <= 255)
+        ensures
+            // an NS lookup happens (from the cache or upstream) only one level deeper and only below the limit
+            r matches Ok((d, _)) ==> d == depth_in + 1 && d < self.ns_recursion_limit,
+            r matches Err(RecursorError::RecursionLimitExceeded { count }) ==> depth_in + 1 >= self.ns_recursion_limit,
+    {
+        let mut depth = depth_in;
+//%expr crates/resolver/src/recursor/handle.rs :: impl<P: ConnectionProvider> RecursorDnsHandle<P> :: ns_pool_for_name :: "trace!(depth, ?zone," .. ".await } };"
+//%sub1 "Query::new(zone.clone(), RecordType::NS)" => "NsQuery::new(zone.clone(), VpRecordType::NS)" # stand-in types (only the control flow and the depth matter)
+//%sub1 ".await" => "" # R-await
+//%mutant cached_lookups_not_counted "depth += 1;" => "if self.response_cache.get(&NsQuery::new(zone.clone(), VpRecordType::NS), request_time).is_none() { depth += 1; }"
+//%end
+        Ok((depth, lookup_res))
+    }
+}
+
 // stub resolver alias chasing (caching_client.rs): at most MAX_QUERY_DEPTH - 1 nestings
 #[derive(Clone, Copy)]
 //%struct crates/resolver/src/caching_client.rs :: DepthTracker
